@@ -27,6 +27,7 @@ const (
 
 type propCfg struct {
 	Pkgs        []string // packages to instrument
+	Dir         string   // harness directory (default: lower-case id)
 	Race        bool
 	QuickS      int // exploration budget in seconds per process
 	ThoroughS   int
@@ -59,6 +60,16 @@ func init() {
 		"between two controller decisions exactly one worker runs; goroutines woken by a real channel operation park at once (post-block yield)",
 		"exploration is seeded random sampling of schedules/faults: absence of a violation is evidence, not proof",
 	}
+	rdRule := "delivery history produced by a seeded fault pipeline (sender with jumps around window/word/half-space sizes, loss, duplication, delay/reordering, attacker replays, authentication failures); configuration swarm over window sizes and maxima. Non-trivial: >=1 replay attempt refused and >=3 numbers accepted; distinct = hash of (configuration, history). No interleaving is explored (sequential code)"
+	def("C04", &propCfg{Dir: "c04", Pkgs: []string{"replaydetector"},
+		Components: []string{"real: replaydetector (plain and wrapping)", "simulated environment: sender/network/attacker/auth pipeline"}, Assumptions: stdAssume, Rule: rdRule})
+	def("C05", &propCfg{Dir: "c04", Pkgs: []string{"replaydetector"},
+		Components: []string{"real: replaydetector (plain and wrapping)", "simulated environment: sender/network/attacker/auth pipeline"}, Assumptions: stdAssume, Rule: rdRule})
+	def("C09", &propCfg{
+		Components:  []string{"real: deadline.Deadline over simrt.Timer (AfterFunc callbacks are workers parked at their entry, so a dispatched-but-unrun callback can be overtaken by further Set calls)", "stub: none"},
+		Assumptions: stdAssume,
+		Rule:        "history of Set(zero|past|future d)/sleep ops by one setter (sleep durations equal to / 1ns around outstanding deadlines), 0-2 concurrent observers; oracle after every op and at quiescence. Non-trivial: >=2 workers and >=1 context switch; distinct = schedule hash",
+	})
 	def("C08", &propCfg{
 		Components:  []string{"real: packetio.Buffer, deadline.Deadline (instrumented at check time from the working tree)", "stub: none"},
 		Assumptions: stdAssume,
@@ -83,6 +94,7 @@ func main() {
 	selftest := fs.Int("selftest", 0, "determinism self-test: N runs per process, 30+ processes at GOMAXPROCS 1/4/16, run logs diffed")
 	_ = fs.Parse(os.Args[2:])
 	pc := props[id]
+	curProp = id
 	if pc == nil {
 		fmt.Fprintf(os.Stderr, "check: unknown property %s\n", id)
 		os.Exit(2)
@@ -122,8 +134,11 @@ func envOr(k, d string) string {
 	return d
 }
 
+var curProp string
+
 func goEnv() []string {
 	env := os.Environ()
+	env = append(env, "VERIF_PROP="+curProp)
 	env = append(env, "GOFLAGS=-mod=mod", "GOPROXY=off", "GOSUMDB=off", "GOTOOLCHAIN=local", "GOWORK=off")
 	return env
 }
@@ -144,6 +159,9 @@ func infra(format string, args ...interface{}) int {
 // build prepares the scratch directory and returns the path of the harness binary.
 func build(id string, pc *propCfg, scratch string) (string, error) {
 	lid := strings.ToLower(id)
+	if pc.Dir != "" {
+		lid = pc.Dir
+	}
 	repo := filepath.Join(scratch, "repo")
 	if err := os.MkdirAll(repo, 0o755); err != nil {
 		return "", err
